@@ -251,6 +251,7 @@ func c08(c *Ctx) {
 	c.borrow(c11, map[string]string{"C11.timeout-paths": "C08.reply-sendable"})
 	r.Rule("C08.error-identity", "the CloseError (or handler error) raised while a compressed or joined message is being read reaches the application as that very value: every Read method layered over the message reader returns the inner error itself (same rules as C04.error-reaches-reader)")
 	flateWrapperRule(c, "C08.error-identity")
+	readJSONRule(c, "C08.error-identity")
 	if c.readerWrappers("C08.error-identity") < 4 {
 		r.Fail("C08.error-identity", "package", "floor", c.fn("(*joinReader).Read").Pos(), "fewer than the 4 known reader wrappers were analysed")
 	}
